@@ -22,11 +22,12 @@ def setup():
 
     np.seterr(all="ignore")
     import pyimpspec
-    from pyimpspec import DataSet, perform_kramers_kronig_test
+    from pyimpspec import DataSet, perform_exploratory_kramers_kronig_tests, perform_kramers_kronig_test
+    from pyimpspec.analysis.kramers_kronig import evaluate_log_F_ext
     from vf import schedule
 
     schedule.install()   # `cnls` creates a Pool even for num_procs=1: run it in-process, in order
-    _ST.update(np=np, DataSet=DataSet, kk=perform_kramers_kronig_test)
+    _ST.update(np=np, DataSet=DataSet, kk=perform_kramers_kronig_test, ekk=perform_exploratory_kramers_kronig_tests, elf=evaluate_log_F_ext)
     return _ST
 
 
@@ -95,10 +96,23 @@ def run_case(case: dict, st=None) -> Tuple[List[dict], Dict[str, Any]]:
     taus = KK.time_constants(f, case["num_RC"], case["lfe"])
     R0, coeffs, C, L = generating_parameters(case, taus)
     Z = KK.model_spectrum(f, taus, case["adm"], R0, coeffs, C, L)
-    data = st["DataSet"](np.array(f), np.array(Z))
+    order = case.get("order", "desc")
+    if order != "desc":
+        # the same points listed in another order (the property is about the spectrum, not about how its rows are listed)
+        n_ = len(f)
+        idx = {"asc": list(range(n_ - 1, -1, -1)), "two-part": list(range(n_ // 2, n_)) + list(range(0, n_ // 2)),
+               "shuffled": sorted(range(n_), key=lambda i: (i * 7919) % n_ if n_ % 7919 else i)}[order]
+        data = st["DataSet"](np.array([f[i] for i in idx]), np.array([Z[i] for i in idx]))
+    else:
+        data = st["DataSet"](np.array(f), np.array(Z))
     cfg = f"{case['test']}|{'Y' if case['adm'] else 'Z'}|C={int(case['C'])}|L={int(case['L'])}"
     if case.get("pre"):
         cfg += "|after-a-test-on-another-spectrum(" + ",".join(sorted(case["pre"])) + ")"
+    if order != "desc":
+        cfg += f"|points-listed-{order}"
+    entry = case.get("entry", "test")
+    if entry != "test":
+        cfg += f"|via-{entry}"
     if case["test"] == "cnls":
         cfg += f"|scale={case['scale']:g}"   # the non-linear fit starts from fixed initial values: failures are magnitude specific
     info = {"cond": None, "maxres": None}
@@ -116,8 +130,18 @@ def run_case(case: dict, st=None) -> Tuple[List[dict], Dict[str, Any]]:
         viols.append({"key": f"kk-exact|{kind}|{cfg}", "what": f"{what} [{cfg}]", "case": case, "detail": detail})
 
     try:
-        r = st["kk"](data, test=case["test"], num_RC=case["num_RC"], add_capacitance=case["C"], add_inductance=case["L"],
-                     admittance=case["adm"], num_F_ext_evaluations=0, log_F_ext=case["lfe"], num_procs=1, timeout=600)
+        if entry == "test":
+            r = st["kk"](data, test=case["test"], num_RC=case["num_RC"], add_capacitance=case["C"], add_inductance=case["L"],
+                         admittance=case["adm"], num_F_ext_evaluations=0, log_F_ext=case["lfe"], num_procs=1, timeout=600)
+        else:
+            # the other documented entry points with the extension factor fixed by the caller
+            kw = dict(test=case["test"], add_capacitance=case["C"], add_inductance=case["L"], admittance=case["adm"], log_F_ext=case["lfe"],
+                      num_F_ext_evaluations=0, num_procs=1, timeout=600)
+            if entry == "evaluate":
+                tests = st["elf"](data, num_RCs=[case["num_RC"]], **kw)[0][1]
+            else:
+                tests = st["ekk"](data, num_RCs=list(range(2, 2 * case["num_RC"] + 1)), **kw)[0]
+            r = [t for t in tests if t.get_num_RC() == case["num_RC"]][0]
     except Exception as e:
         viol(f"raises:{type(e).__name__}", f"perform_kramers_kronig_test raised {type(e).__name__}: {str(e)[:100]} on a spectrum of its own model")
         return viols, info
@@ -243,6 +267,17 @@ def cases(thorough: bool) -> List[dict]:
                             for scale in ((1e-9, 1e-6, 1e6, 1e9) if thorough else (1e-9, 1e9)):
                                 out.append({"test": test, "adm": adm, "C": C, "L": L, "ppd": 10, "fmax": 4, "num_RC": num_RC, "lfe": lfe,
                                             "signs": signs, "scale": scale})
+    # the points listed in another order; the other entry points that accept a fixed extension factor
+    for test in KK.LINEAR_TESTS:
+        for adm in (False, True):
+            for C, L in (((False, True), (True, True)) if test.endswith("-inv") else ((False, False), (True, True))):
+                base = {"test": test, "adm": adm, "C": C, "L": L, "ppd": 10, "fmax": 4, "num_RC": 6, "signs": "plus", "scale": 1.0}
+                for order in ("asc", "two-part", "shuffled"):
+                    for lfe in ((0.0, 0.3) if thorough else (0.3,)):
+                        out.append(dict(base, lfe=lfe, order=order))
+                for entry in ("evaluate", "exploratory"):
+                    for lfe in (-0.5, 0.3):
+                        out.append(dict(base, lfe=lfe, entry=entry))
     # call sequences: a test preceded, in the same process, by a test on a related spectrum. Grid variants share the point count (41)
     # and one or both end points with the base grid; parameter variants share the frequencies
     GV = {"base": {"ppd": 10, "fmax": 4, "dec": 4, "warp": 1.0}, "other-fmin": {"ppd": 8, "fmax": 4, "dec": 5, "warp": 1.0},
@@ -275,7 +310,7 @@ def run(ctx) -> None:
     ctx.rule = ("{complex, real, imaginary, complex-inv, real-inv, imaginary-inv} x {Z, Y} x add_capacitance x add_inductance (forced for -inv) x "
                 "num_RC in {2, 5, 15 = 3 per decade} ({2,3,5,8,15} thorough) x log_F_ext in {-0.5, 0, 0.7} (6 values thorough) x 6 frequency grids (3/5/10/20 "
                 "points per decade over 5 decades, three ranges) x sign patterns of R_k/C_k {all +, alternating, one negative} x 5 (7) magnitude "
-                "scales over 6 decades, plus scales 1e-9 and 1e9 (and 1e-6, 1e6 thorough) on one grid; every ordered pair of tests on four grids that share the point count and one or both end points, and pairs "
+                "scales over 6 decades, the points listed ascending / in two parts / shuffled, evaluate_log_F_ext and the exploratory entry point with a fixed extension factor, plus scales 1e-9 and 1e9 (and 1e-6, 1e6 thorough) on one grid; every ordered pair of tests on four grids that share the point count and one or both end points, and pairs "
                 "that share the frequencies but differ in magnitude / signs / num_RC / log_F_ext / representation, run back to back in one process "
                 "(the second one is judged); cnls on 16 (288) configurations with num_RC <= 5 at 2 (4) magnitude scales. Spectra and time "
                 "constants are computed by an independent implementation of eq. 12 / Fig. 1 / Fig. 13. Oracle: max |relative residual| <= 1e-6 "
